@@ -128,6 +128,7 @@ type tcpBackend struct {
 	mu    sync.Mutex
 	recv  [][]byte
 	reply []byte
+	greet []byte // written as soon as a connection is accepted (a backend that speaks first)
 	conns int
 }
 
@@ -149,11 +150,14 @@ func newTCPBackend() *tcpBackend {
 			b.conns++
 			idx := len(b.recv)
 			b.recv = append(b.recv, nil)
-			reply := b.reply
+			reply, greet := b.reply, b.greet
 			b.mu.Unlock()
 			go func() {
 				defer c.Close()
 				c.SetDeadline(time.Now().Add(5 * time.Second))
+				if len(greet) > 0 {
+					c.Write(greet)
+				}
 				data, _ := ioutil.ReadAll(c)
 				b.mu.Lock()
 				b.recv[idx] = data
@@ -167,7 +171,7 @@ func newTCPBackend() *tcpBackend {
 
 func (b *tcpBackend) reset(reply []byte) {
 	b.mu.Lock()
-	b.recv, b.conns, b.reply = nil, 0, reply
+	b.recv, b.conns, b.reply, b.greet = nil, 0, reply, nil
 	b.mu.Unlock()
 }
 
@@ -563,6 +567,56 @@ func runRelayCopy(prefix string, segs [][]byte, reply []byte) {
 	emit(line, hx(data), verdict, len(data) > 0)
 }
 
+// runRelayGreet: a backend that speaks first (as smtp, ftp or mysql servers do) and a client that waits for the greeting
+// before it sends anything.  "@relay greet <greeting hex> <data hex> <reply hex>"
+func runRelayGreet(greet, data, reply []byte) {
+	l := proxyLabGet()
+	line := fmt.Sprintf("@relay greet %s %s %s", hx(greet), hx(data), hx(reply))
+	verdict := "ok"
+	viol := func(sig, d string) {
+		if verdict == "ok" {
+			verdict = "viol:" + sig + ":" + d
+		}
+	}
+	l.tb.reset(reply)
+	l.tb.mu.Lock()
+	l.tb.greet = greet
+	l.tb.mu.Unlock()
+	srv, cli := tcpPair()
+	pc := &portConn{Conn: srv, laddr: &net.TCPAddr{IP: net.IPv4(127, 0, 0, 1), Port: l.portCP}}
+	done := make(chan struct{})
+	go func() { defer close(done); defer func() { recover() }(); l.hc.VerifHandle(pc) }()
+	cli.SetDeadline(time.Now().Add(4 * time.Second))
+	got := make([]byte, len(greet))
+	if _, err := io.ReadFull(cli, got); err != nil || !bytes.Equal(got, greet) {
+		viol("reply-not-relayed", fmt.Sprintf("the backend's greeting of %d bytes does not reach a client that waits for it before sending (%v)", len(greet), err))
+	}
+	cli.SetDeadline(time.Now().Add(5 * time.Second))
+	cli.Write(data)
+	if tc, ok := cli.(*net.TCPConn); ok {
+		tc.CloseWrite()
+	}
+	rest, _ := ioutil.ReadAll(cli)
+	cli.Close()
+	select {
+	case <-done:
+	case <-time.After(8 * time.Second):
+		viol("proxy-does-not-return", "copy: handle() still running 8 s after the client closed")
+	}
+	recv, _ := l.tb.got()
+	var back []byte
+	if len(recv) > 0 {
+		back = recv[0]
+	}
+	if !bytes.Equal(back, data) {
+		viol("stream-changed", fmt.Sprintf("client sent %d bytes, the backend received %d", len(data), len(back)))
+	}
+	if verdict == "ok" && !bytes.Equal(rest, reply) {
+		viol("reply-changed", fmt.Sprintf("backend sent %d bytes after the client's data, the client received %d", len(reply), len(rest)))
+	}
+	emit(line, hx(back), verdict, true)
+}
+
 // port-less director: two services on two ports share it; each connection must reach the backend on its own port
 func runRelayPorts(order []int, payloads [][]byte) {
 	l := proxyLabGet()
@@ -817,6 +871,10 @@ func genC15(tier string, seed uint64) {
 			prefix = "@relay"
 		}
 		runRelayCopy(prefix, cutAt(data, cuts), reply)
+	}
+	// a backend that speaks first, a client that waits for it
+	for _, g := range [][]byte{[]byte("220 mail.example ESMTP\r\n"), r.Bytes(1), r.Bytes(5000), r.Bytes(40000)} {
+		runRelayGreet(g, r.Bytes(r.Range(1, 300)), r.Bytes(r.Range(0, 300)))
 	}
 	// the port-less director shared by two services
 	for d := 0; d < 4; d++ {
